@@ -96,7 +96,7 @@ def cases(tier, seed):
                 'ds': {'seed': int(r.randint(2**31 - 1)), 'd': d,
                        'classes': int(r.randint(2, 4)), 'variant': 'plain',
                        'nmax': 40},
-                'n_tuples': int(r.choice([12, 25, 40]) + d),
+                'n_tuples': int(r.choice([12, 25, 40, 0, 1]) + d),
                 'seed': int(r.randint(1000))})
   return out
 
